@@ -176,6 +176,10 @@ func (p *Parser) arithmExprValue(compact bool) ArithmExpr {
 			p.followErr(ue.OpPos, ue.Op, noQuote("a literal"))
 		}
 		ue.X = p.arithmExprValue(compact)
+		if post, ok := ue.X.(*UnaryArithm); ok && post.Post {
+			// e.g. "++x++"; the operand of a prefix operator must be a plain name
+			p.posErr(post.OpPos, "%#q must follow a name", post.Op)
+		}
 		if !isArithName(ue.X) {
 			// Like Bash, "--5" and "++5" are two unary signs rather than a
 			// decrement or increment, which needs a name to assign to.
